@@ -957,11 +957,37 @@ func ruleSelfRename(c *Ctx, id string) {
 		// walk: constants decide the branches
 		prev, cur := br.Block, side
 		ok, why := false, "no return reached"
+		// flags kept in cells (a variable captured by a closure): what this path stored into them, and what a load
+		// on this path therefore yields
+		cells := map[ssa.Value]bool{}
+		loads := map[ssa.Value]bool{}
 		for steps := 0; steps < 40 && cur != nil; steps++ {
 			bad := false
 			for _, in := range cur.Instrs {
 				if isUpdate(in) {
 					bad = true
+				}
+				if st, isS := in.(*ssa.Store); isS {
+					if bv, isb := constBool(st.Val); isb {
+						cells[st.Addr] = bv
+					} else {
+						delete(cells, st.Addr)
+					}
+				}
+				if ld, isL := in.(*ssa.UnOp); isL && ld.Op == token.MUL {
+					if bv, known := cells[ld.X]; known {
+						loads[ld] = bv
+					}
+				}
+				if cl, isC := in.(*ssa.Call); isC {
+					// a call may change a captured flag: forget what is known unless the callee is outside the server
+					if g := staticCallee(cl); g == nil || IsRepoFunc(g) {
+						if _, isCommit := in.(*ssa.Call); isCommit && g != nil && g.Parent() == nil && funcPkg(g) != funcPkg(ren) {
+							// a function of another package cannot see the handler's locals
+						} else {
+							cells = map[ssa.Value]bool{}
+						}
+					}
 				}
 			}
 			if bad {
@@ -994,6 +1020,9 @@ func ruleSelfRename(c *Ctx, id string) {
 					}
 				}
 				bv, isb := constBool(val)
+				if lv, known := loads[val]; !isb && known {
+					bv, isb = lv, true
+				}
 				if !isb {
 					why = "a branch on the way does not depend on a constant of this path (" + P.Pos(x.Pos()) + ")"
 					cur = nil
